@@ -55,6 +55,64 @@ func (f *fnSpec) isState(r string) bool {
 
 var specs = []fnSpec{
 	{
+		file: "rib/rib.go", goName: "canDelete", callAs: "r.canDelete", leanName: "canDelete",
+		params: []param{
+			{goName: "netInst", goType: "string", lean: "netInst", kd: kStr},
+			{goName: "deletionCandidate", goType: "*aft.RIB", lean: "cand", kd: kPtr("CandRIB")},
+		},
+		goRets: "bool, error", rets: []string{"bool", "err"},
+		oracleParams: []param{
+			{goName: "§candErr", lean: "candErr", kd: kind{k: "status"}},
+			{goName: "§defaultName", lean: "defaultName", kd: kStr},
+			{goName: "§niKnown", lean: "niKnown", kd: kind{k: "fun", t: []kind{kBool, kStr}}},
+			{goName: "§nhgExists", lean: "nhgExists", kd: kind{k: "fun", t: []kind{kBool, kStr, kNat}}},
+			{goName: "§nhExists", lean: "nhExists", kd: kind{k: "fun", t: []kind{kBool, kStr, kNat}}},
+			{goName: "§nhgReferenced", lean: "nhgReferenced", kd: kind{k: "fun", t: []kind{kBool, kStr, kNat}}},
+			{goName: "§nhReferenced", lean: "nhReferenced", kd: kind{k: "fun", t: []kind{kBool, kStr, kNat}}},
+		},
+		// a RIBHolder is represented by the name of its network instance
+		oracles: map[string]oracle{
+			"checkCandidate":         {results: []string{"§candErr"}},
+			"r.NetworkInstanceRIB":   {results: []string{"$0", "§niKnown@0"}},
+			"*.GetNextHop":           {results: []string{"$0", "§nhExists@recv,0"}},
+			"*.GetNextHopGroup":      {results: []string{"$0", "§nhgExists@recv,0"}},
+			"*.nhgExists":            {results: []string{"§nhgExists@recv,0"}},
+			"*.nhExists":             {results: []string{"§nhExists@recv,0"}},
+			"*.nhgReferenced":        {results: []string{"§nhgReferenced@recv,0"}},
+			"*.nhReferenced":         {results: []string{"§nhReferenced@recv,0"}},
+		},
+		subst: map[string]string{"r.defaultName": "§defaultName"},
+	},
+	{
+		file: "rib/rib.go", goName: "canResolve", callAs: "r.canResolve", leanName: "canResolve",
+		params: []param{
+			{goName: "netInst", goType: "string", lean: "netInst", kd: kStr},
+			{goName: "candidate", goType: "*aft.RIB", lean: "cand", kd: kPtr("CandRIB")},
+		},
+		goRets: "bool, error", rets: []string{"bool", "err"},
+		oracleParams: []param{
+			{goName: "§candErr", lean: "candErr", kd: kind{k: "status"}},
+			{goName: "§defaultName", lean: "defaultName", kd: kStr},
+			{goName: "§niKnown", lean: "niKnown", kd: kind{k: "fun", t: []kind{kBool, kStr}}},
+			{goName: "§nhgExists", lean: "nhgExists", kd: kind{k: "fun", t: []kind{kBool, kStr, kNat}}},
+			{goName: "§nhExists", lean: "nhExists", kd: kind{k: "fun", t: []kind{kBool, kStr, kNat}}},
+			{goName: "§nhgReferenced", lean: "nhgReferenced", kd: kind{k: "fun", t: []kind{kBool, kStr, kNat}}},
+			{goName: "§nhReferenced", lean: "nhReferenced", kd: kind{k: "fun", t: []kind{kBool, kStr, kNat}}},
+		},
+		// a RIBHolder is represented by the name of its network instance
+		oracles: map[string]oracle{
+			"checkCandidate":         {results: []string{"§candErr"}},
+			"r.NetworkInstanceRIB":   {results: []string{"$0", "§niKnown@0"}},
+			"*.GetNextHop":           {results: []string{"$0", "§nhExists@recv,0"}},
+			"*.GetNextHopGroup":      {results: []string{"$0", "§nhgExists@recv,0"}},
+			"*.nhgExists":            {results: []string{"§nhgExists@recv,0"}},
+			"*.nhExists":             {results: []string{"§nhExists@recv,0"}},
+			"*.nhgReferenced":        {results: []string{"§nhgReferenced@recv,0"}},
+			"*.nhReferenced":         {results: []string{"§nhReferenced@recv,0"}},
+		},
+		subst: map[string]string{"r.defaultName": "§defaultName"},
+	},
+	{
 		file: "fluent/fluent.go", goName: "entriesToModifyRequest", callAs: "g.entriesToModifyRequest", leanName: "entriesToModifyRequest",
 		params: []param{
 			{goName: "op", goType: "spb.AFTOperation_Operation", lean: "op", kd: kEnum},
